@@ -5,6 +5,7 @@ Property theorems only.  Models: `Corro/Model/Pack.lean` (packed primary keys),
 `Corro/Lemmas/Codec.lean`.
 -/
 import Corro.Lemmas.Pack
+import Corro.Lemmas.Codec
 
 namespace Corro.Pack
 
@@ -94,3 +95,193 @@ example : unpack [] = .error .abort ∧ unpack [1] = .error .abort ∧
     unpack [1, 0x44, 255, 255, 255, 255, 255, 255, 255, 255, 1, 2] = .error .abort := by decide
 
 end Corro.Pack
+
+namespace Corro.Codec
+open Corro.Pack (Bytes Val validUtf8)
+
+/-! ## speedy wire codecs
+
+`Dec.run d bs = (result, rest)`: the value or error and the reader position.  All `decode_encode_*`
+theorems have the form `Dec.run dec (enc m ++ rest) = (.ok m, rest)`: decoding the encoding gives the
+value back and consumes exactly the encoding, whatever follows it (speedy ignores trailing bytes).
+Well-formedness (`WF…`, defined next to the model): numbers fit their wire width, lengths fit their
+length field, ids are 16 bytes, text satisfies the executable check `validUtf8` — ASSUMED to accept
+exactly what `str::from_utf8` accepts (compared differentially on every run). `HashMap` fields are
+association lists in wire order. -/
+
+/-- **C09 round trip, leaves**: `Timestamp`, `CrsqlDbVersion`, `CrsqlSeq` (any `u64`), `ClusterId` (any
+`u16`), `ActorId` (16 bytes). -/
+theorem decode_encode_leaves (rest : Bytes) :
+    (∀ n, U64 n → Dec.run u64 (encU64 n ++ rest) = (.ok n, rest)) ∧
+    (∀ n, n < 65536 → Dec.run u16 (encU16 n ++ rest) = (.ok n, rest)) ∧
+    (∀ a, WFActor a → Dec.run actor (a ++ rest) = (.ok a, rest)) :=
+  ⟨fun n h => run_u64 n rest h, fun n h => run_u16 n rest h, fun a h => run_actor a rest h⟩
+
+/-- **C09 round trip, `SqliteValue`**: Null, any `i64`, any `f64` bit pattern (NaN included), valid
+text and blobs shorter than 2³² bytes. -/
+theorem decode_encode_sqlitevalue (v : Val) (rest : Bytes) (h : WFWireVal v) :
+    Dec.run sqliteValue (encSqliteValue v ++ rest) = (.ok v, rest) := run_sqliteValue v rest h
+
+/-- **C09 round trip, `Change`** (derived codec). -/
+theorem decode_encode_change (c : Change) (rest : Bytes) (h : WFChange c) :
+    Dec.run change (encChange c ++ rest) = (.ok c, rest) := run_change c rest h
+
+/-- **C09 round trip, `Changeset`** (hand-written): all three variants, any number of changes below
+2³², any number of version ranges. -/
+theorem decode_encode_changeset (c : Changeset) (rest : Bytes) (h : WFChangeset c) :
+    Dec.run changeset (encChangeset c ++ rest) = (.ok c, rest) := run_changeset c rest h
+
+/-- **C09 round trip, `ChangeV1`**. -/
+theorem decode_encode_changev1 (c : ChangeV1) (rest : Bytes) (h : WFChangeV1 c) :
+    Dec.run changeV1 (encChangeV1 c ++ rest) = (.ok c, rest) := run_changeV1 c rest h
+
+/-- **C09 round trip, `SyncNeedV1`** (hand-written): Full, Partial, Empty. -/
+theorem decode_encode_syncneed (n : SyncNeed) (rest : Bytes) (h : WFSyncNeed n) :
+    Dec.run syncNeed (encSyncNeed n ++ rest) = (.ok n, rest) := run_syncNeed n rest h
+
+/-- **C09 round trip, `SyncStateV1`** (hand-written; maps as association lists in wire order). -/
+theorem decode_encode_syncstate (s : SyncState) (rest : Bytes) (h : WFSyncState s) :
+    Dec.run syncState (encSyncState s ++ rest) = (.ok s, rest) := run_syncState s rest h
+
+/-- **C09 round trip, `UniPayload`** (what `uni.rs:64` decodes). -/
+theorem decode_encode_unipayload (u : UniPayload) (rest : Bytes) (h : WFUniPayload u) :
+    Dec.run uniPayload (encUniPayload u ++ rest) = (.ok u, rest) := run_uniPayload u rest h
+
+/-- **C09 round trip, `BiPayload`** (what `bi.rs:77` decodes), trace context included. -/
+theorem decode_encode_bipayload (b : BiPayload) (rest : Bytes) (h : WFBiPayload b) :
+    Dec.run biPayload (encBiPayload b ++ rest) = (.ok b, rest) := run_biPayload b rest h
+
+/-- **C09 round trip, `SyncMessage`** (`SyncMessage::from_buf`): State, Changeset, Clock, Rejection,
+Request. -/
+theorem decode_encode_syncmessage (m : SyncMsg) (rest : Bytes) (h : WFSyncMsg m) :
+    Dec.run syncMsg (encSyncMsg m ++ rest) = (.ok m, rest) := run_syncMsg m rest h
+
+/-! ### `#[speedy(default_on_eof)]` -/
+
+theorem run_u16_short (bs : Bytes) (h : bs.length < 2) : Dec.run u16 bs = (.error .eof, bs) := by
+  simp [u16, uN, Dec.run, bind_def, take, h]
+
+/-- **`default_on_eof` on `cluster_id`**: a `UniPayload` frame that ends right before `cluster_id`
+(what a peer that predates the field sends) decodes, with cluster 0 — and so does a frame with a single
+stray byte there, which is left unread. -/
+theorem default_on_eof_cluster (c : ChangeV1) (h : WFChangeV1 c) (stray : Bytes)
+    (hs : stray.length < 2) :
+    Dec.run uniPayload (encUniData c ++ stray) = (.ok ⟨c, 0⟩, stray) := by
+  have hc := run_defaultOnEof_eof u16 0 stray stray (run_u16_short stray hs)
+  simp only [uniPayload, encUniData, List.append_assoc, run_bind, run_tag0, run_changeV1 _ _ h, hc,
+    run_pure]
+
+/-- the same for `BiPayload`: a frame that ends after `actor_id` decodes with an empty trace context
+and cluster 0. -/
+theorem default_on_eof_bipayload (a : Bytes) (h : WFActor a) :
+    Dec.run biPayload (encU32 0 ++ encU32 0 ++ a) = (.ok ⟨a, ⟨none, none⟩, 0⟩, []) := by
+  have ha := run_actor a [] h
+  rw [List.append_nil] at ha
+  have ht : Dec.run (defaultOnEof traceCtx ⟨none, none⟩) [] = (.ok ⟨none, none⟩, []) :=
+    run_defaultOnEof_eof traceCtx _ [] [] (by
+      simp [traceCtx, opt, u8, uN, Dec.run, bind_def, take])
+  have hc := run_defaultOnEof_eof u16 0 [] [] (run_u16_short [] (by simp))
+  simp only [biPayload, List.append_assoc, run_bind, run_tag0, ha, ht, hc, run_pure]
+
+/-! ### "never allocates memory unrelated to the input size"
+
+`(d bs).alloc` is what the decoder books while reading `bs`, on the success AND on the error path:
+for every reservation made from a length field (`Vec::with_capacity`, `HashMap::with_capacity`,
+`read_vec`), the number of input bytes that the guard in front of it demanded (`elements × minimum
+encoded element size`).  The memory reserved is at most 18 bytes per booked byte (largest ratio:
+`Change`, 648 bytes in memory per 37 guaranteed bytes of input; `SyncNeedV1` 32 per 2).  So the bound
+`alloc ≤ 4 · len` means: at most `72 · len` bytes are reserved up front, whatever the length fields
+claim (up to 2⁶⁴−1). -/
+
+/-- **C09 allocation bound, `UniPayload`.** -/
+theorem decode_alloc_bound_unipayload (bs : Bytes) : (uniPayload bs).alloc ≤ 2 * bs.length :=
+  good_alloc_le (by omega) good_uniPayload bs
+
+/-- **C09 allocation bound, `BiPayload`.** -/
+theorem decode_alloc_bound_bipayload (bs : Bytes) : (biPayload bs).alloc ≤ 2 * bs.length :=
+  good_alloc_le (by omega) good_biPayload bs
+
+/-- **C09 allocation bound, `SyncMessage`** — with `SyncNeedV1::minimum_bytes_needed() = 2` as the
+code now declares it. -/
+theorem decode_alloc_bound_syncmessage (bs : Bytes) : (syncMsg bs).alloc ≤ 4 * bs.length :=
+  good_alloc_le (by omega) (good_syncMsgP syncNeedMinBytes (by decide) (by decide)) bs
+
+/-- **C09 allocation bound, the hand-written readers on their own** (`Changeset`, `SyncStateV1`,
+`SyncNeedV1`) and `SqliteValue`, `Change`. -/
+theorem decode_alloc_bound_parts (bs : Bytes) :
+    (changeset bs).alloc ≤ 2 * bs.length ∧ (syncState bs).alloc ≤ 4 * bs.length ∧
+    (syncNeed bs).alloc ≤ 2 * bs.length ∧ (sqliteValue bs).alloc ≤ bs.length ∧
+    (change bs).alloc ≤ bs.length := by
+  refine ⟨good_alloc_le (by omega) good_changeset bs, good_alloc_le (by omega) good_syncState bs,
+    good_alloc_le (by omega) good_syncNeed bs, ?_, ?_⟩
+  · simpa using good_alloc_le (Nat.le_refl 1) (good_sqliteValue 1 (Nat.le_refl 1)) bs
+  · simpa using good_alloc_le (Nat.le_refl 1) (good_change 1 (Nat.le_refl 1)) bs
+
+/-- on success nothing is booked that was not consumed: booked + unread ≤ input. -/
+theorem decode_alloc_consumed (bs : Bytes) (m : SyncMsg) (h : (syncMsg bs).val = .ok m) :
+    (syncMsg bs).alloc + (syncMsg bs).rest.length ≤ bs.length := by
+  have := good_syncMsgP syncNeedMinBytes (by decide) (by decide) bs
+  simp only [syncMsg] at h
+  simp only [h] at this
+  simp only [syncMsg]; omega
+
+/-- the 32-byte frame `SyncMessage::V1(Request([(actor, <4294967295 needs>)]))` -/
+def hostileRequestFrame : Bytes :=
+  [0, 0, 0, 0, 4, 0, 0, 0, 1, 0, 0, 0,
+   1, 2, 3, 4, 5, 6, 7, 8, 9, 10, 11, 12, 13, 14, 15, 16, 255, 255, 255, 255]
+
+/-- **Why `SyncNeedV1` has to declare its minimum size** (the defect fixed by commit 756fff2): with
+speedy's default `minimum_bytes_needed() = 0` the guard of `Vec<SyncNeedV1>` is vacuous and this
+32-byte frame books 4 294 967 295 elements (× 32 bytes = 128 GiB: the real process aborted) on top of
+the 20 bytes of the outer entry before failing with EOF — no bound of the form `c · len` holds. -/
+theorem syncmessage_alloc_unguarded_counterexample :
+    (syncMsgP 0 hostileRequestFrame).alloc = 20 + 4294967295 ∧
+    (syncMsgP 0 hostileRequestFrame).val = .error .eof := by
+  decide
+
+/-- with the declared minimum the same frame is refused before the inner vector is booked (the 20
+booked bytes are the outer entry, which is really there). -/
+theorem hostile_request_frame_refused :
+    (syncMsg hostileRequestFrame).alloc = 20 ∧ (syncMsg hostileRequestFrame).val = .error .eof := by
+  decide
+
+/-! ### "never yields text that is not valid UTF-8" -/
+
+/-- **C09 text validity**: whatever the input, a decoded `SqliteValue::Text`, a decoded table or column
+name, every change of a decoded changeset and a decoded trace context string pass the UTF-8 check. -/
+theorem decode_text_valid (bs r : Bytes) :
+    (∀ v, Dec.run sqliteValue bs = (.ok v, r) → ValTextValid v) ∧
+    (∀ c, Dec.run change bs = (.ok c, r) → ChangeTextValid c) ∧
+    (∀ c, Dec.run changeset bs = (.ok c, r) → ChangesetTextValid c) ∧
+    (∀ c, Dec.run changeV1 bs = (.ok c, r) → ChangesetTextValid c.changeset) ∧
+    (∀ o, Dec.run (opt str) bs = (.ok o, r) → OptTextValid o) :=
+  ⟨fun _ h => sqliteValue_valid h, fun _ h => change_valid h, fun _ h => changeset_valid h,
+    fun _ h => changeV1_valid h, fun _ h => optStr_valid h⟩
+
+/-! ### the hypotheses are satisfiable; concrete frames -/
+
+def exActor : Bytes := [1, 2, 3, 4, 5, 6, 7, 8, 9, 10, 11, 12, 13, 14, 15, 16]
+
+def exChange : Change :=
+  ⟨[0x74], [1, 9, 5], [0x63], .int (-9223372036854775808), 1, 2, 0, exActor, 1⟩
+
+example : WFChange exChange := by
+  simp only [WFChange, WFText, Len32, WFWireVal, I64, U64, exChange, exActor]; decide
+
+example : WFUniPayload ⟨⟨exActor, .full 7 [exChange] (0, 0) 0 99⟩, 3⟩ := by
+  simp only [WFUniPayload, WFChangeV1, WFChangeset, WFActor, WFRange, List.mem_singleton, forall_eq,
+    WFChange, WFText, Len32, WFWireVal, I64, U64, exChange, exActor]; decide
+
+example : WFSyncNeed (.part 3 [(0, 5), (9, 18446744073709551615)]) := by
+  simp only [WFSyncNeed, WFRanges, WFRange, U64, List.mem_cons, List.mem_nil_iff, or_false,
+    forall_eq_or_imp, forall_eq]; decide
+
+example : WFBiPayload ⟨exActor, ⟨some [0x30, 0x30], none⟩, 65535⟩ := by
+  simp only [WFBiPayload, WFActor, WFTraceCtx, WFOptText, WFText, exActor]; decide
+
+example : Dec.run sqliteValue [3, 2, 0, 0, 0, 0xc3, 0x28] = (.error .invalid, []) := by decide
+
+example : Dec.run changeset [9] = (.error .invalid, []) ∧
+    Dec.run changeset [2, 255, 255, 255, 255, 255, 255, 255, 255] = (.error .invalid, []) := by decide
+
+end Corro.Codec
